@@ -319,6 +319,66 @@ def check_hist(kind, src, h):
     return out + [("@hist", "")]
 
 
+# ---- coordinates exactly half way between two 1e-6 grid points ------------------------------------------------------------------
+# Which neighbour such a coordinate is rounded to is not specified; what the statement needs is that every part of the library
+# rounds it the SAME way: the trap built from a coordinate is found again by that coordinate, registers and weights follow.
+TIES = [3.5e-06, 4.5e-06, 1.25e-05, 0.1029475, 2.0000005, 7.3000015]
+
+
+def tie_cases(tier):
+    out = []
+    for dim in (2, 3):
+        for a, b in itertools.permutations(TIES, 2):
+            pts = [(a, 0.0), (b, 3.0), (a + 2e-6, 6.0), (-a, 9.0), (5.0, b)]
+            if dim == 3:
+                pts = [p + (a if i % 2 else -b,) for i, p in enumerate(pts)]
+            out.append(("ties", tuple(pts)))
+    return out
+
+
+def check_ties(points):
+    from pulser.register.register_layout import RegisterLayout
+    from pulser.register.weight_maps import DetuningMap
+
+    dim = "3d" if len(points[0]) == 3 else "2d"
+    out = []
+    ids_by_order = []
+    for order in (list(range(len(points))), list(range(len(points)))[::-1]):
+        pts = [points[i] for i in order]
+        try:
+            L = RegisterLayout([list(p) for p in pts])
+        except Exception as e:
+            return gridx.crash_finding(e, "building-a-layout", f"{pts}") or [(f"C19:tie-layout-refused:{dim}", f"{pts}: {e}"[:200])]
+        coords = {i: tuple(float(v) for v in c) for i, c in L.traps_dict.items()}
+        found = {}
+        for p in pts:
+            try:
+                t = L.get_traps_from_coordinates(p)[0]
+            except Exception as e:
+                out.append((f"C19:tie-coordinate-not-found-in-its-own-layout:{dim}", f"{p} of layout {pts}: {e}"[:220]))
+                continue
+            found[p] = t
+            if max(abs(a - b) for a, b in zip(p, coords[t])) > 1.0000001e-6:
+                out.append((f"C19:tie-coordinate-resolves-to-another-trap:{dim}", f"{p} -> trap {t} at {coords[t]}"))
+        if len(set(found.values())) != len(found):
+            out.append((f"C19:tie-coordinates-share-a-trap:{dim}", f"{found}"))
+        if len(found) == len(pts):
+            sel = [found[p] for p in pts]
+            reg = L.define_register(*sel, qubit_ids=[f"a{i}" for i in range(len(sel))])
+            xy = _reg_xy(reg)
+            if list(L.get_traps_from_coordinates(*xy)) != sel:
+                out.append((f"C19:tie-register-lookup:{dim}", f"{sel} -> {list(L.get_traps_from_coordinates(*xy))}"))
+            wts = [0.1 * (i + 1) for i in range(len(pts))]
+            dm = DetuningMap([list(p) for p in pts], wts)
+            got = dm.get_qubit_weight_map({f"a{i}": np.array(p) for i, p in enumerate(pts)})
+            if any(abs(got[f"a{i}"] - wts[i]) > 1e-12 for i in range(len(pts))):
+                out.append((f"C19:tie-weight-lookup:{dim}", f"{got} vs {wts}"))
+            ids_by_order.append({p: found[p] for p in pts})
+    if len(ids_by_order) == 2 and ids_by_order[0] != ids_by_order[1]:
+        out.append((f"C19:tie-ids-depend-on-order:{dim}", f"{ids_by_order}"))
+    return out + [("@ties", "")]
+
+
 # ---- lattice layouts and the registers they define -------------------------------------------------------------------------
 def special_cases(tier):
     out = []
@@ -437,6 +497,8 @@ def worker(points):
         warnings.simplefilter("ignore")
         if points and points[0] == "special":
             return check_special(*points[1:])
+        if points and points[0] == "ties":
+            return check_ties(tuple(tuple(p) for p in points[1]))
         if points and points[0] == "hist":
             return check_hist(points[1], points[2], tuple(points[3]))
         r = check_set(tuple(tuple(p) for p in points))
@@ -463,13 +525,13 @@ def run(tier, seed):
                 classes[fp] = classes.get(fp, 0) + 1
             else:
                 res.add(Violation(fp, d, {"engine": "grid", "points": ["hist", c[1], c[2], list(c[3])]}, size=len(c[3])))
-    sc = special_cases(tier)
+    sc = special_cases(tier) + tie_cases(tier)
     for c, r in zip(sc, gridx.run(worker, sc)):
         for fp, d in r:
             if fp.startswith("@"):
                 classes[fp] = classes.get(fp, 0) + 1
             else:
-                res.add(Violation(fp, d, {"engine": "grid", "points": list(c)}, size=1))
+                res.add(Violation(fp, d, {"engine": "grid", "points": [c[0], [list(p) for p in c[1]]] if c[0] == "ties" else list(c)}, size=1))
     res.coverage = dict(
         evaluations=perms + len(hc) + len(sc), distinct_nontrivial=len(sets) + classes.get("@hist", 0), exhaustive=True, point_sets=len(sets),
         object_histories=len(hc), outcome_classes=classes,
